@@ -31,6 +31,24 @@ def IKEY(x):
     return 8 if x is None else x
 
 
+# scalar leaves: the specification's small integers stand for leaves of several classes when LEAFMODE is on - str and
+# bytes (sequences that remap must NOT descend into), None, float, bool-free ints
+LEAFMODE = False
+_LEAF = {1: "s1", 2: b"b2", 3: None, 4: 2.5, 11: "s11", 12: b"b12", 13: 13, 14: 14.5}
+_ILEAF = {("str", "s1"): 1, ("bytes", b"b2"): 2, ("NoneType", None): 3, ("float", 2.5): 4, ("str", "s11"): 11, ("bytes", b"b12"): 12,
+          ("int", 13): 13, ("float", 14.5): 14}
+
+
+def LEAF(v):
+    return _LEAF.get(v, v) if LEAFMODE else v
+
+
+def ILEAF(x):
+    if not LEAFMODE or isinstance(x, (dict, list, tuple, set, frozenset)):
+        return x
+    return _ILEAF.get((type(x).__name__, x), x if isinstance(x, int) and not isinstance(x, bool) else -999)
+
+
 def build(heap):
     """Materialise a node table as real objects (tuples/frozensets are created once their items exist;
     cycles only pass through list/dict, which exist before their items). Returns {node: object}."""
@@ -44,14 +62,14 @@ def build(heap):
         for i in list(pending):
             nd = heap[i - 1]
             if all(it["s"] or it["v"] in objs for it in nd["items"]):
-                objs[i] = PY[nd["kind"]](it["v"] if it["s"] else objs[it["v"]] for it in nd["items"])
+                objs[i] = PY[nd["kind"]](LEAF(it["v"]) if it["s"] else objs[it["v"]] for it in nd["items"])
                 pending.remove(i)
     if pending:
         raise core.MachineryError("cannot materialise heap %r" % (heap,))
     for i, nd in enumerate(heap, 1):
         o = objs[i]
         for it in nd["items"]:
-            v = it["v"] if it["s"] else objs[it["v"]]
+            v = LEAF(it["v"]) if it["s"] else objs[it["v"]]
             if nd["kind"] == "dict":
                 o[DKEY(it["k"])] = v
             elif nd["kind"] == "list":
@@ -66,7 +84,7 @@ def snapshot(objs, heap):
     ids = {id(o): i for i, o in objs.items()}
 
     def ref(v):
-        return ["n", ids[id(v)]] if id(v) in ids and isinstance(v, (dict, list, tuple, set, frozenset)) else ["s", v]
+        return ["n", ids[id(v)]] if id(v) in ids and isinstance(v, (dict, list, tuple, set, frozenset)) else ["s", ILEAF(v)]
     out = {}
     for i, o in objs.items():
         if isinstance(o, dict):
@@ -74,7 +92,7 @@ def snapshot(objs, heap):
         elif isinstance(o, (list, tuple)):
             out[i] = [type(o).__name__, [ref(v) for v in o]]
         else:
-            out[i] = [type(o).__name__, sorted(o)]
+            out[i] = [type(o).__name__, sorted(ILEAF(x) for x in o)]
     return out
 
 
@@ -83,13 +101,13 @@ def visit_fn(prog, heap, objs):
     if prog == 0:
         return None
     if prog == 1:
-        return lambda p, k, v: not (isinstance(v, int) and v == 1)
+        return lambda p, k, v: ILEAF(v) != 1
     if prog == 2:
         def f(p, k, v, _state={}):
             return True
         return "drop-key"
     if prog == 3:
-        return lambda p, k, v: (k, v + 10) if isinstance(v, int) else (k, v)
+        return lambda p, k, v: (k, LEAF(ILEAF(v) + 10)) if not isinstance(v, (dict, list, tuple, set, frozenset)) else (k, v)
     if prog == 4:
         return "rename"
     if prog == 5:
@@ -184,15 +202,15 @@ def match(res, expected, live):
             if len(vals) != len(items):
                 return "node %d: %d items, expected %d" % (n, len(vals), len(items))
         else:
-            if sorted(o) != sorted(i_["v"] for i_ in items):
-                return "node %d: members %r, expected %r" % (n, sorted(o), sorted(i_["v"] for i_ in items))
+            if sorted(ILEAF(x) for x in o) != sorted(i_["v"] for i_ in items):
+                return "node %d: members %r, expected %r" % (n, sorted(ILEAF(x) for x in o), sorted(i_["v"] for i_ in items))
             return None
         for v, i_ in zip(vals, items):
             if i_["s"] and i_["v"] in (-1, -2):        # the interpreter's shared empty tuple / frozenset
                 if v != (() if i_["v"] == -1 else frozenset()) or type(v) is not (tuple if i_["v"] == -1 else frozenset):
                     return "node %d: item %r, expected an empty %s" % (n, v, "tuple" if i_["v"] == -1 else "frozenset")
             elif i_["s"]:
-                if isinstance(v, (dict, list, tuple, set, frozenset)) or v != i_["v"]:
+                if isinstance(v, (dict, list, tuple, set, frozenset)) or ILEAF(v) != i_["v"]:
                     return "node %d: item %r, expected scalar %r" % (n, v, i_["v"])
             else:
                 if not isinstance(v, (dict, list, tuple, set, frozenset)):
@@ -213,6 +231,8 @@ def run_row(row):
     from boltons import iterutils as it
     bad = []
     heap, prog = row["heap"], row["prog"]
+    global LEAFMODE
+    LEAFMODE = (len(json.dumps(heap)) + prog) % 2 == 1        # every other row with leaves of mixed classes
     objs = build(heap)
     before = snapshot(objs, heap)
     try:
@@ -359,6 +379,8 @@ def records(rng, count):
         if not on_cycle_ok(heap):
             continue
         prog = rng.choice([0, 1, 3, 5, 6, 0, 2, 4] + ([7, 7, 7] if tree and is_tree(heap) else []))
+        global LEAFMODE
+        LEAFMODE = len(recs) % 2 == 1
         objs = build(heap)
         before = snapshot(objs, heap)
         n = len(heap)
@@ -376,7 +398,7 @@ def records(rng, count):
                     return
                 table[nid] = None
                 its = []
-                seq = [(IKEY(k_), v_) for k_, v_ in o.items()] if isinstance(o, dict) else list(enumerate(sorted(o) if isinstance(o, (set, frozenset)) else o))
+                seq = [(IKEY(k_), v_) for k_, v_ in o.items()] if isinstance(o, dict) else list(enumerate(sorted((ILEAF(x) for x in o)) if isinstance(o, (set, frozenset)) else o))
                 for k, v in seq:
                     if isinstance(v, (tuple, frozenset)) and len(v) == 0:
                         its.append({"k": k, "s": True, "v": -1 if isinstance(v, tuple) else -2})
@@ -384,7 +406,7 @@ def records(rng, count):
                         walk(v)
                         its.append({"k": k, "s": False, "v": newnode[id(v)]})
                     else:
-                        its.append({"k": k, "s": True, "v": v})
+                        its.append({"k": k, "s": True, "v": ILEAF(v)})
                 table[nid] = {"kind": type(o).__name__, "items": its}
             walk(res)
             rec["live"] = sorted(table)
